@@ -355,4 +355,43 @@ theorem init_normal (usable : Nat) : (init usable).Normal := by
   rw [initChunks_allFree 64 0 usable c hc]
   trivial
 
+/-! ### `get_buddy`: `p_len xor p_ptr` is the sibling -/
+
+theorem testBit_mul_pow (m k j : Nat) : (m * 2 ^ k).testBit j = (decide (k ≤ j) && m.testBit (j - k)) := by
+  rw [Nat.mul_comm, Nat.testBit_two_pow_mul]
+
+theorem xor_sibling_even (q k : Nat) : Gen.buddyOf (2 ^ k) ((2 * q) * 2 ^ k) = (2 * q + 1) * 2 ^ k := by
+  unfold Gen.buddyOf
+  apply Nat.eq_of_testBit_eq
+  intro j
+  rw [Nat.testBit_xor, Nat.testBit_two_pow, testBit_mul_pow, testBit_mul_pow]
+  by_cases h : k ≤ j
+  · obtain ⟨i, rfl⟩ : ∃ i, j = k + i := ⟨j - k, by omega⟩
+    simp only [h, decide_true, Bool.true_and, Nat.add_sub_cancel_left]
+    cases i with
+    | zero => simp [Nat.testBit_zero]
+    | succ i =>
+      have : ¬ k = k + (i + 1) := by omega
+      simp only [this, decide_false, Bool.false_xor, Nat.testBit_succ]
+      congr 1; omega
+  · have : ¬ k = j := by omega
+    simp [h, this]
+
+theorem xor_sibling_odd (q k : Nat) : Gen.buddyOf (2 ^ k) ((2 * q + 1) * 2 ^ k) = (2 * q) * 2 ^ k := by
+  unfold Gen.buddyOf
+  apply Nat.eq_of_testBit_eq
+  intro j
+  rw [Nat.testBit_xor, Nat.testBit_two_pow, testBit_mul_pow, testBit_mul_pow]
+  by_cases h : k ≤ j
+  · obtain ⟨i, rfl⟩ : ∃ i, j = k + i := ⟨j - k, by omega⟩
+    simp only [h, decide_true, Bool.true_and, Nat.add_sub_cancel_left]
+    cases i with
+    | zero => simp [Nat.testBit_zero]
+    | succ i =>
+      have : ¬ k = k + (i + 1) := by omega
+      simp only [this, decide_false, Bool.false_xor, Nat.testBit_succ]
+      congr 1; omega
+  · have : ¬ k = j := by omega
+    simp [h, this]
+
 end Cppcms.C08.Buddy
